@@ -8,7 +8,12 @@ EXTENDS MosCli, TLC, TLCExt, Json, IOUtils
 Events == JsonDeserialize(IOEnv.TRACE_FILE)
 VARIABLE l
 
+UsageFailing(ev) ==
+  IF ev.rc = 2 /\ ev.stderr_nonempty /\ \A i \in DOMAIN ev.seen : ev.seen[i].out = <<>> /\ ev.seen[i].err = <<>>
+  THEN <<>> ELSE <<"cli_usage">>
+
 LoopFailing(ev) ==
+  IF UsageError(ev.cmd, ev.mode) THEN UsageFailing(ev) ELSE
   (IF Len(ev.seen) = Len(ev.files) /\ \A i \in DOMAIN ev.files : FileOk(ev.files[i], ev.seen[i])
    THEN <<>> ELSE <<"cli_marks">>)
   \o (IF ev.order_ok THEN <<>> ELSE <<"cli_order">>)
@@ -16,7 +21,7 @@ LoopFailing(ev) ==
   \o (IF (\A i \in DOMAIN ev.files : IsValid(ev.files[i])) => ev.rc = 0 THEN <<>> ELSE <<"cli_rc">>)
 
 MergeFailing(ev) ==
-  LET want == MergeRc(ev.c.docs, ev.c.allow, ev.c.nonstrict)
+  LET want == MergeRcMode(ev.c.docs, ev.c.allow, ev.c.nonstrict, ev.c.mode)
   IN (IF ev.rc = want THEN <<>> ELSE <<"cli_merge_rc">>)
      \o (IF want = 0 => (ev.wrote /\ ev.same_as_lib) THEN <<>> ELSE <<"cli_merge_output">>)
      \o (IF want = 2 => (ev.stderr_nonempty /\ ~ev.wrote) THEN <<>> ELSE <<"cli_merge_error">>)
@@ -29,8 +34,8 @@ DocsStr(ds) == IF ds = <<>> THEN "" ELSE Head(ds).kind \o (IF Head(ds).roid = "R
                                    \o (IF Len(ds) > 1 THEN "," ELSE "") \o DocsStr(Tail(ds))
 Sig(ev) == IF ev.cmd = "merge"
            THEN "merge[" \o DocsStr(ev.c.docs) \o "]/i=" \o ToString(ev.c.allow) \o "/n=" \o ToString(ev.c.nonstrict)
-                \o "/o=" \o ToString(ev.c.outfile)
-           ELSE ev.cmd \o "[" \o FilesStr(ev.files) \o "]"
+                \o "/o=" \o ToString(ev.c.outfile) \o "/" \o ev.c.mode
+           ELSE ev.cmd \o "[" \o FilesStr(ev.files) \o "]/" \o ev.mode
 
 TInit == l = 1
 TNext ==
